@@ -178,6 +178,18 @@ StepResult(st, o, c, sc) ==
                       IF Failed(r.S) THEN (IF r.S.err.name = "wide" THEN "" ELSE "the specification raises an error, the evaluation succeeded")
                       ELSE IF ~VEq(o.val, r.v) THEN "value differs; expected " \o ToJson(r.v) ELSE ""
             ELSE ""]
+    [] st.op = "tokens" ->
+         \* C13: the token sequence is the same however the text reached the scanner
+         [C |-> c, why |-> IF Has(st, "same_toks_as") /\ o.toks # sc.obs[st.same_toks_as].toks
+                           THEN "the token sequence differs from the reference delivery of the same text" ELSE ""]
+    [] st.op = "execfrag" ->
+         [C |-> PutCtx(c, st.ctx, [State0 EXCEPT !.unk = TRUE]),
+          why |-> IF o.oc \notin {"ok", "parse_error", "runtime_error"} THEN "outcome outside the alphabet: " \o o.oc
+                  ELSE IF ~Has(st, "same_run_as") THEN ""
+                  ELSE LET b == sc.obs[st.same_run_as] IN
+                       IF o.oc # b.oc \/ o.no # b.no THEN "the same text compiles/runs differently when delivered differently: " \o o.oc \o " vs " \o b.oc
+                       ELSE IF o.out # b.out THEN "the same text prints something else when delivered differently"
+                       ELSE IF o.unp # b.unp THEN "the compiled program differs when the text is delivered differently" ELSE ""]
     [] st.op = "unparse" ->
          \* text produced from a compiled program; with same_text_as: producing text from the reloaded program gives the same text
          [C |-> c, why |-> IF Has(st, "same_text_as") /\ o.text # sc.obs[st.same_text_as].text
